@@ -461,7 +461,9 @@ def rule_dup1(ctx: Ctx) -> RuleResult:
     renames = 0
     for p in paths:
         rr.instances += 1
-        counted = any(isinstance(s, ast.AugAssign) and "counter" in norm(s.target) for s in p.stmts())
+        counted = any((isinstance(s, ast.AugAssign) and "counter" in norm(s.target)) or (
+            isinstance(s, ast.Assign) and isinstance(s.targets[0], ast.Subscript) and "counter" in norm(s.targets[0].value))
+            for s in p.stmts())
         renamed = any(isinstance(s, ast.Expr) and isinstance(s.value, ast.Call) and norm(s.value.func) == f"{mv}.set_raw_name"
                       for s in p.stmts())
         gt1 = None
